@@ -116,9 +116,15 @@ type scriptHandler struct {
 	v       int
 	mut     string
 	status  int
+
+	concurrent bool
 }
 
 func (h *scriptHandler) ServeHTTP(w http.ResponseWriter, req *http.Request) {
+	if h.concurrent { // goroutine drivers: no per-request bookkeeping in the shared handler
+		w.WriteHeader(200)
+		return
+	}
 	h.invoked++
 	h.k, h.v = h.tab.abstract(req.URL)
 	switch h.mut {
